@@ -2,6 +2,8 @@
 #![allow(unused_imports, unused_variables, dead_code, unused_mut, non_snake_case, unused_parens, unused_labels)]
 use vstd::prelude::*;
 verus! {
+// ASSUMPTION (listed): a 64-bit target (only used by the FFT padding slice: shift of a usize)
+global size_of usize == 8;
 //@include prelude/float.rs
 //@include prelude/ndarray.rs
 //@include prelude/ndfloat.rs
@@ -178,6 +180,74 @@ pub mod unit_ess {
         requires fin2(v2(sample)), dim2(sample).0 >= 1
         ensures odim2(r) == dim2(sample), is_autocov(a2(r), v2(sample), dim2(sample).0, dim2(sample).1)
     { unimplemented!() }
+
+    // ---- the FFT path's zero padding (statement slice of autocov_fft: the two statements that compute `n_padded`) ----
+    /// The rest of autocov_fft (planner, per-column FFT / |.|^2 / inverse FFT, normalisation, transposition) stays an assumed
+    /// contract; what IS proved of it here is the premise of the circular-convolution argument: the padded length is a power
+    /// of two, at least 2n - 1 (so that the circular autocorrelation of the zero-padded series has no wrap-around at the lags
+    /// 0..n, lemma_circular_equals_linear_when_padded) and less than twice that.
+    pub open spec fn is_pow2(x: int) -> bool decreases x { if x <= 1 { x == 1 } else { x % 2 == 0 && is_pow2(x / 2) } }
+    /// the centred series padded with zeros: z_t = x_t - m for t < n, 0 beyond
+    pub open spec fn padded(x: Seq<Fl>, m: real) -> spec_fn(int) -> real { |t: int| if 0 <= t < x.len() { rv(x[t]) - m } else { 0real } }
+    /// one term of the circular autocorrelation with period l
+    pub open spec fn circ_term(z: spec_fn(int) -> real, l: int, lag: int) -> spec_fn(int) -> real { |t: int| z(t) * z((t + lag) % l) }
+    /// circular autocorrelation at `lag` over period l: sum_{t < l} z_t z_{(t + lag) mod l}  (what forward FFT, |.|^2, inverse FFT
+    /// compute up to the factor l — the ASSUMED contract of rustfft)
+    pub open spec fn circ(z: spec_fn(int) -> real, l: int, lag: int) -> real { gsum(circ_term(z, l, lag), l) }
+    pub proof fn lemma_gsum_zero_tail(f: spec_fn(int) -> real, k0: int, k: int)
+        requires 0 <= k0 <= k, forall |t: int| k0 <= t < k ==> #[trigger] f(t) == 0real
+        ensures gsum(f, k) == gsum(f, k0)
+        decreases k - k0
+    {
+        if k > k0 { lemma_gsum_zero_tail(f, k0, k - 1); assert(f(k - 1) == 0real); }
+    }
+    /// with at least n - 1 zeros of padding (period l >= 2n - 1) the circular autocorrelation of the padded series has no
+    /// wrap-around at the lags 0..n: it IS the lagged sum of the biased sample autocovariance
+    pub proof fn lemma_circular_equals_linear_when_padded(x: Seq<Fl>, m: real, l: int, lag: int)
+        requires x.len() >= 1, 0 <= lag < x.len(), l >= 2 * x.len() - 1
+        ensures circ(padded(x, m), l, lag) == lagsum(x, m, lag, x.len() - lag)      // [C12.zero_padded_circular_autocorrelation_is_the_linear_one]
+    {
+        let n = x.len() as int;
+        let z = padded(x, m);
+        let f = circ_term(z, l, lag);
+        // terms t >= n - lag vanish: either z_t = 0 (t >= n) or the partner index t + lag lies in [n, l) where z = 0
+        assert forall |t: int| n - lag <= t < l implies #[trigger] f(t) == 0real by {
+            if t < n {
+                assert(n <= t + lag < l);
+                assert((t + lag) % l == t + lag) by(nonlinear_arith) requires 0 <= t + lag < l;
+                assert(z(t + lag) == 0real);
+                assert(z(t) * 0real == 0real) by(nonlinear_arith);
+            } else {
+                assert(z(t) == 0real);
+                assert(0real * z((t + lag) % l) == 0real) by(nonlinear_arith);
+            }
+        }
+        lemma_gsum_zero_tail(f, n - lag, l);
+        // the remaining terms are those of the lagged sum
+        assert forall |t: int| 0 <= t < n - lag implies #[trigger] f(t) == term2(x, m, lag)(t) by {
+            assert((t + lag) % l == t + lag) by(nonlinear_arith) requires 0 <= t + lag < l;
+        }
+        lemma_gsum_ext(term2(x, m, lag), f, n - lag);
+        lemma_lagsum_is_gsum(x, m, lag, n - lag);
+    }
+    pub mod fft_padding {
+        use super::*;
+        #[verifier::exec_allows_no_decreases_clause]
+        pub fn autocov_fft(n: usize) -> (n_padded: usize)
+            requires 1 <= n <= 0x2000_0000_0000_0000
+            ensures n_padded >= 2 * n - 1, is_pow2(n_padded as int), n_padded < 2 * (2 * n - 1) || n_padded == 1      // [C12.fft_zero_padding_is_a_power_of_two_at_least_2n_minus_1]
+        //@body id=autocov_fft_pad file=src/stats.rs name=autocov_fft props=C12 slice_from="^let mut n_padded" slice_to="^while n_padded" slice_result=n_padded
+        //@sig fn autocov_fft (sample : ArrayView2 < f32 >) -> Array2 < f32 >
+        //@rules
+        //@loop 1
+        //@| invariant 1 <= n <= 0x2000_0000_0000_0000, 1 <= n_padded, is_pow2(n_padded as int), n_padded < 2 * (2 * n - 1) || n_padded == 1,
+        //@anchor dbl scope=loop:1 pos=start
+        //@| let ghost old_p = n_padded;
+        //@| proof { assert(old_p < 0x4000_0000_0000_0000); assert(old_p << 1 == 2 * old_p) by(bit_vector) requires old_p < 0x4000_0000_0000_0000usize; }
+        //@anchor dbl2 scope=loop:1 pos=end
+        //@| proof { assert(n_padded == 2 * old_p); assert(is_pow2(n_padded as int)) by { assert((2 * old_p) / 2 == old_p); } }
+        //@end
+    }
 
     fn autocov_bf(data: ArrayView2<Fl>) -> (out: Array2<Fl>)
         requires fin2(v2(data)), dim2(data).0 >= 1
